@@ -92,7 +92,9 @@ def exp10(x):
 def _ambiguous(offdiag):
     # a returned off-diagonal below 1e-6 did not trigger the code's absolute breakdown threshold (100 n eps) although it is
     # a rounding-level quantity: the exact rank and the floating-point decision may legitimately differ there
-    return bool(np.any(np.abs(offdiag) < 1e-6))
+    # (an exactly vanishing or non-finite entry is not a rounding-level quantity: 0 < threshold always trips)
+    a = np.abs(np.asarray(offdiag))
+    return bool(np.any((a > 0) & (a < 1e-6)))
 
 
 def record_lanczos(ptn, A, v, m):
@@ -105,7 +107,8 @@ def record_lanczos(ptn, A, v, m):
             alpha, beta, V = ptn.lanczos_iteration(lambda x: A @ x, v.copy(), m)
         k = len(alpha)
         nA = max(1.0, float(np.linalg.norm(A, 2)) if n else 1.0)
-        sizes = bool(np.ndim(alpha) == 1 and len(beta) == k - 1 and V.shape == (n, k))
+        sizes = bool(np.ndim(alpha) == 1 and len(beta) == k - 1 and V.shape == (n, k)
+                     and np.all(np.isfinite(alpha)) and np.all(np.isfinite(beta)) and np.all(np.isfinite(V)))
         T = np.diag(alpha) + np.diag(beta, 1) + np.diag(beta, -1) if sizes else np.zeros((k, k))
         kk = min(k, kdim)
         Vl = V[:, :kk]
